@@ -56,6 +56,17 @@ CLAIMED = {
          "Trusted: CPython's ast parser, the alias rules in sa/props/c07.py (which constructors copy shallowly/deeply, which "
          "methods mutate), the use-def engine sa/terms.py. Assumes deepcopy and bytes/int/tuple values do not alias; C-level "
          "or reflective mutation (setattr by name is flagged, ctypes etc. are not modelled)."),
+ "C02": ("CFG exploration of the miss path of every token-indexed lookup + index-provenance classification on use-def terms",
+         "Decides the structural content of the property for all nine _Search functions: every load from an encrypted-database "
+         "container (also inside comprehensions) is classified by container kind (from how _Enc builds it) and by where its "
+         "index comes from (token, earlier hit, bounded range); token-indexed dictionary lookups must tolerate a miss, and the "
+         "CFG is explored under the assumption that the lookup missed - no use of the missed value, no raise, no decryption, "
+         "no addition to the result, and walks over consecutive labels end at the first gap; list containers are indexed only "
+         "by hit-derived or range-bounded values; DP17's trial decryption rejects foreign slots; dummy keywords are >= 16 fresh "
+         "random bytes. Holds for every absent keyword because it is a statement about all paths a miss can take.",
+         "Trusted: CPython's ast parser, sa/terms.py (use-def reconstruction), sa/props/c02.py. Assumes labels of absent "
+         "keywords do not collide with stored labels (quality of PRF/PRP, not of this code) and that KeyError/IndexError are "
+         "the exceptions container loads raise. Values are not computed."),
 }
 NA_REASON = "check under construction in this session (see DESIGN.md section 3); not yet registered"
 NA = {}
